@@ -45,6 +45,7 @@ TARGETS = {
     # cross-net load targets so that tap profiles can be paired with bus_pq profiles
     ("load@T3", "p_mw"): ("T3", 0, [[4.0, 6.0, 2.0]]),
     ("load@W3", "p_mw"): ("W3", 0, [[6.0, 3.0, 8.0]]),
+    ("load@T3", "q_mvar"): ("T3", 0, [[1.0, 0.2, 1.5]]),
 }
 
 LOGVARS = {
@@ -70,9 +71,19 @@ def make_net(name):
             net = na.build({"base": "R3", "devs": [["gen", 2, 0.5, 1.01, "wide", False, True], ["load", 3, 0.8, 0.2, "P", 1., True],
                                                    ["sgen", 3, 0.2, 0.0, 1., True], ["storage", 2, 0.3, 0.1, 1., True],
                                                    ["line", 0, 2, 1, True]]})
+            # one value per factor of the batch-read formulas: derating factor, parallel systems
+            net.line.at[1, "df"] = 0.8
+            net.line.at[2, "parallel"] = 2
         elif name == "T3":
             net = na.base("T3")
             pp.create_sgen(net, 3, 0.5, 0.1)
+            net.trafo.at[0, "df"] = 0.9
+            net.trafo.at[0, "parallel"] = 2
+            net.line.at[0, "df"] = 0.7
+        elif name == "W3":
+            net = na.base("W3")
+            pp.create_transformer_from_parameters(net, 0, 3, **dict(na.TR, parallel=1, df=0.8))   # 2W next to the 3W trafo
+            net.line.at[0, "df"] = 0.9
         else:
             net = na.base(name)
         _NETS[name] = net
@@ -106,11 +117,19 @@ def run_case(case):
     kw = {"run": runf}
     if case["recycle"] is False:
         kw["recycle"] = False
+    if case.get("cod"):
+        kw["continue_on_divergence"] = True
     toks = ["run=" + case["run"], "recycle=%s" % case["recycle"]] + ["ctrl=%s.%s" % c[0] for c in ctrls] + ["log=%s.%s" % l for l in logv]
     toks.append("nlog=%d" % len(logv))
     tabs = sorted({l[0] for l in logv})
     if len(logv) > 1 and len(tabs) < len(logv):
         toks.append("two_vars_same_table")
+    if case.get("cod"):
+        toks.append("cod")
+        fast = {"res_bus": ("vm_pu", "va_degree"), "res_line": ("i_ka", "i_from_ka", "i_to_ka", "loading_percent"),
+                "res_trafo": ("i_hv_ka", "i_lv_ka", "loading_percent"), "res_trafo3w": ("i_hv_ka", "i_mv_ka", "i_lv_ka", "loading_percent")}
+        if all(v in fast.get(t, ()) for t, v in logv):
+            toks.append("fast_outputs")
     try:
         run_timeseries(net, [0, 1, 2], verbose=False, **kw)
     except Exception as e:
@@ -123,19 +142,23 @@ def run_case(case):
                 runf(ref)
             except Exception:
                 ok = False
-        if not ok:
+        if not ok and not case.get("cod"):
             return {"outcome": "ref_fails_too", "violations": [], "sig": None}
         return {"outcome": "ts_raised:" + type(e).__name__, "sig": None,
                 "violations": [core.violation("records_every_variable", {"exception": type(e).__name__, "msg": str(e)[:200], "log": logv},
                                               tokens=toks + ["exc=" + type(e).__name__], klass="raise:%s" % type(e).__name__)]}
     vs = []
+    prev_infeasible = False
     for step in range(3):
         ref = make_net(netname)
         _apply(ref, ctrls, step)
         try:
             runf(ref)
         except Exception:
+            prev_infeasible = True
             continue
+        if prev_infeasible and "prev_step_infeasible" not in toks:
+            toks.append("prev_step_infeasible")
         for tab, var in logv:
             key = "%s.%s" % (tab, var)
             if key not in ow.output:
@@ -186,6 +209,16 @@ def gen_cases(tier):
                 cases.append({"net": netname, "ctrls": ctrls, "log": [list(l) for l in log], "recycle": rec, "run": "runpp"})
         for log in ([["res_bus", "va_degree"]], [["res_line", "p_from_mw"]], [list(l) for l in allvars if l[1] in ("p_mw", "va_degree", "p_from_mw", "p_hv_mw")]):
             cases.append({"net": netname, "ctrls": ctrls, "log": log, "recycle": None, "run": "rundcpp"})
+    # a diverging step in the middle of the profile, continue_on_divergence=True: the steps after it must again equal fresh power flows
+    # (nets without a PV generator: there the overload has no power-flow solution at all, whatever the starting point)
+    for netname, ctrl in (("T3", ["load@T3", "p_mw", 0, [4.0, 3000.0, 2.0]]), ("W3", ["load@W3", "p_mw", 0, [6.0, 5000.0, 3.0]]),
+                          ("T3", ["load@T3", "q_mvar", 0, [1.0, 4000.0, 0.5]])):
+        net = make_net(netname)
+        tabs = _tables(net)
+        allvars = [(t, v) for t in tabs for v in LOGVARS[t]]
+        for log in ([("res_bus", "vm_pu")], [("res_line", "loading_percent")], [("res_bus", "vm_pu"), ("res_line", "loading_percent")], allvars):
+            for rec in (None, False):
+                cases.append({"net": netname, "ctrls": [ctrl], "log": [list(l) for l in log], "recycle": rec, "run": "runpp", "cod": True})
     for netname, ctrls in pairs:
         net = make_net(netname)
         tabs = _tables(net)
